@@ -187,6 +187,8 @@ def gen_deck(rng, force=None):
     fillers = [2, 3]
     homogeneous = force.get('homogeneous', rng.random() < 0.3)
     ranges = gen_ranges(rng, d)
+    if force.get('ranges'):
+        ranges = [tuple(r) for r in force['ranges']]
     degenerate_low_dim = False
     if homogeneous:
         if rng.random() < 0.4:
